@@ -497,6 +497,20 @@ fn probe(id: usize, r: &mut Rng, max: usize) -> String {
                 let dm = DistanceMatrix::<isize>::new(n, isize::MAX);
                 dm[..].len() + dm[0..n].len()
             });
+            // the fields are public: a caller may leave them inconsistent
+            let how = r.below(4);
+            let _ = catch(|| {
+                let mut dm = DistanceMatrix::<usize>::new(n.max(1), 9);
+                match how {
+                    0 => dm.order += 2,
+                    1 => dm.dist.truncate(1),
+                    2 => dm.dist.clear(),
+                    _ => dm.order = 1 << 20,
+                }
+                let x = dm[(a, b)];
+                dm[(b, a)] = 1;
+                (x, dm.center(), *dm.diameter(), dm.periphery().count(), dm.is_connected(), dm.eccentricities().count())
+            });
             extra = format!("order={n} index=({a},{b})");
         }
         12 => {
@@ -944,7 +958,7 @@ fn program(r: &mut Rng, max: usize, log: &mut Vec<String>) {
         let j = r.below(pool.len());
         let m = val_model(&pool[i]);
         let (a, b) = (arg(r, &m), arg(r, &m));
-        let op = r.below(9);
+        let op = r.below(10);
         let mut new: Option<Val> = None;
         match op {
             0 => {
@@ -1102,6 +1116,42 @@ fn program(r: &mut Rng, max: usize, log: &mut Vec<String>) {
                     }
                     Val::EL(d) => {
                         let _ = catch(|| (d.is_semicomplete(), d.is_complete()));
+                    }
+                }
+            }
+            8 => {
+                log.push(format!("#{i}.clone_from(#{j}); then add_arc({a},{b})"));
+                if i != j {
+                    let (x, y) = if i < j {
+                        let (l, rr) = pool.split_at_mut(j);
+                        (&mut l[i], &rr[0])
+                    } else {
+                        let (l, rr) = pool.split_at_mut(i);
+                        (&mut rr[0], &l[j])
+                    };
+                    match (x, y) {
+                        (Val::AL(p), Val::AL(q)) => {
+                            p.clone_from(q);
+                            mutate(p, a, b);
+                        }
+                        (Val::AM(p), Val::AM(q)) => {
+                            p.clone_from(q);
+                            mutate(p, a, b);
+                        }
+                        (Val::MX(p), Val::MX(q)) => {
+                            p.clone_from(q);
+                            mutate(p, a, b);
+                            let _ = catch(|| p.toggle(b, a));
+                            let c = p.clone();
+                            let _ = catch(|| c.arcs().count());
+                        }
+                        (Val::EL(p), Val::EL(q)) => {
+                            p.clone_from(q);
+                            mutate(p, a, b);
+                        }
+                        (Val::WU(p), Val::WU(q)) => p.clone_from(q),
+                        (Val::WI(p), Val::WI(q)) => p.clone_from(q),
+                        _ => {}
                     }
                 }
             }
